@@ -34,6 +34,7 @@ package consensus
 //@   for C15
 //@   requires wal != nil && options != nil
 //@   modifies *
+//@   opt assumecallreqs
 //@   ensures [foundHasReader] found ==> err == nil && rd != nil
 //@   ensures [notFoundOnlyWhenPast] !found && err == nil ==> index < min || (lastHeightFound > 0 && lastHeightFound < height)
 
